@@ -139,6 +139,24 @@ def build_cases(tier, seed):
                     cs = rnd.choice([len(stream), 64, 100, 1000, 5000])
                 cases.append(('unknown type=%d size=%d %s%s hs=%d cs=%d' % (ty, size, sub, ' padded' if padded else '', [16, 32, 40, 0, 0xffff][nunk % 5], cs), stream, exp, cs, 'unknown'))
                 nunk += 1
+    # very long runs of consecutive unknown objects between known neighbours (a reader that keeps per-object state on its stack, or
+    # recurses per skipped object, runs out of it)
+    for nrun, sizes in ((200000, (16,)), (120000, (16, 17, 20, 33, 64))):
+        stream = b''
+        exp = []
+        for k in range(3):
+            t, img = known(uid, rnd)
+            stream += img
+            exp.append((t, uid, zlib.crc32(img)))
+            uid += 1
+            if k == 0:
+                parts = []
+                for j in range(nrun):
+                    sz = sizes[j % len(sizes)]
+                    parts.append(blf.unknown_object(UNKNOWN_TYPES[j % len(UNKNOWN_TYPES)], sz, b'\xee' * (sz - 16)) + b'\0' * (sz % 4))
+                stream += b''.join(parts)
+        cases.append(('run of %d consecutive unknown objects (sizes %s) cs=65536' % (nrun, list(sizes)), stream, exp, 65536, 'unknown'))
+        nunk += 1
     return cases, nexh, len(fillers) - nexh, nunk + ntail
 
 
